@@ -21,6 +21,8 @@ pub struct FnInfo {
     pub block: syn::Block,
     pub vis_pub: bool,
     pub line: usize,
+    /// the impl header's self type as written (`Compiler<B, CompilerReady>`), for methods
+    pub impl_ty: Option<String>,
 }
 
 #[derive(Clone, Debug)]
@@ -156,6 +158,7 @@ struct Loader<'a> {
     file: String,
     krate: String,
     module: Vec<String>,
+    cur_impl_ty: Option<String>,
 }
 
 impl<'a> Loader<'a> {
@@ -172,6 +175,7 @@ impl<'a> Loader<'a> {
         vis_pub: bool,
     ) {
         let name = sig.ident.to_string();
+        let has_self = self_ty.is_some();
         let module = self.modpath();
         let mut key = module.clone();
         if let Some(st) = &self_ty {
@@ -199,6 +203,7 @@ impl<'a> Loader<'a> {
             block: block.clone(),
             vis_pub,
             line: line_of(sig.ident.span()),
+            impl_ty: if has_self { self.cur_impl_ty.clone() } else { None },
         };
         // items nested in the fn body (statics, consts, inner fns)
         let mut inner = InnerItems {
@@ -250,6 +255,7 @@ impl<'a> Loader<'a> {
                         continue;
                     }
                     let st = type_name(&i.self_ty);
+                    self.cur_impl_ty = Some(tok(&i.self_ty));
                     let tr = i.trait_.as_ref().map(|(_, p, _)| {
                         let seg = p.segments.last().unwrap();
                         tok(seg)
@@ -406,6 +412,7 @@ impl<'a> Loader<'a> {
                 }
                 syn::Item::Trait(t) => {
                     // default method bodies
+                    self.cur_impl_ty = None;
                     let st = t.ident.to_string();
                     for ti in &t.items {
                         if let syn::TraitItem::Fn(f) = ti {
@@ -472,6 +479,7 @@ impl<'ast, 'a, 'b> Visit<'ast> for InnerItems<'a, 'b> {
                     block: (*f.block).clone(),
                     vis_pub: p,
                     line: line_of(f.sig.ident.span()),
+                    impl_ty: None,
                 };
                 self.l.m.fns.push(fi);
             }
@@ -545,6 +553,7 @@ impl Model {
                     file: rel,
                     krate: krate.to_string(),
                     module,
+                    cur_impl_ty: None,
                 };
                 l.items(&ast.items, f.parent().unwrap(), false);
             }
